@@ -190,6 +190,12 @@ def fit_root_fitter(fcn):
     return ret
 
 
+def _constrained_names(fcn):
+    """parameters with a Gaussian constraint term in the FCN"""
+    constr = getattr(fcn, "gauss_constr", None)
+    return list(getattr(constr, "constraint", {}))
+
+
 def fit_scipy(
     fcn,
     method="BFGS",
@@ -359,7 +365,7 @@ def fit_scipy(
         if standard_complex:
             # while the bounds are still registered: standard_complex skips
             # bounded parameters, which must stay inside their range
-            fcn.vm.standard_complex()
+            fcn.vm.standard_complex(_constrained_names(fcn))
             standard_complex = False
         fcn.vm.remove_bound()
 
@@ -401,7 +407,7 @@ def fit_scipy(
             # the bounds were handed to scipy only: register them so that
             # standard_complex leaves the bounded parameters in their range
             fcn.vm.set_bound(bounds_dict)
-            fcn.vm.standard_complex()
+            fcn.vm.standard_complex(_constrained_names(fcn))
             fcn.vm.remove_bound()
             standard_complex = False
     elif method in ["Newton-CG", "trust-krylov", "trust-ncg", "trust-exact"]:
@@ -432,7 +438,7 @@ def fit_scipy(
             gs.append((nll0 - nll1) / 2e-5)
             print(args_name[i], gs[i], gs0[i])
     if standard_complex:
-        fcn.vm.standard_complex()
+        fcn.vm.standard_complex(_constrained_names(fcn))
     params = fcn.get_params()  # vm.get_all_dic()
     return FitResult(
         params, fcn, min_nll, ndf=ndf, success=success, hess_inv=hess_inv
